@@ -517,6 +517,14 @@ def check_expand(ctx, n_random):
             recs.append(enc(f))
     recs += [[int(b) for b in r] for r in rng.integers(0, 256, (n_random, 9))]
     recs += [[0] * 9, [255] * 9, [0xF0] * 9, [0x0F] * 9]
+    if not ctx.quick:
+        # all 256^2 values of each byte pair that shares a nibble byte: (c0,c1), (c1,c2), (c3,c4), (c4,c5), (c6,c7), (c7,c8)
+        for a, b in ((0, 1), (1, 2), (3, 4), (4, 5), (6, 7), (7, 8)):
+            base = rng.integers(0, 256, (65536, 9))
+            base[:, a] = np.repeat(np.arange(256), 256)
+            base[:, b] = np.tile(np.arange(256), 256)
+            recs += base.tolist()
+        ctx.count('byte-pair-sweeps', 6)
     outs = ctx.driver.query(['expand ' + hexstream([r]) for r in recs])
     outs2 = ctx.driver.query(['pack ' + ','.join(str(v) for v in dec(r)) for r in recs])
     s = np.empty(6, dtype=np.int16)
